@@ -208,7 +208,7 @@ Proof.
 Qed.
 
 Theorem relex_comment y rest : comment_text y -> end_ok y ->
-  forall sp f d, Forall (fun c => is_sp c = true) sp -> (length (sp ++ y ++ 10 :: rest) + 2 <= f)%nat ->
+  forall sp f d, Forall (fun c => is_sp c = true) sp -> (length (sp ++ y ++ 10%Z :: rest) + 2 <= f)%nat ->
     ptoken f d (sp ++ y ++ 10 :: rest) = PTok (if d then KEOLComment else KComment) y rest.
 Proof.
   intros (Hss & Hlf) He sp f d Hsp Hf. rewrite !app_length in Hf. cbn [length] in Hf.
